@@ -1,16 +1,302 @@
-import Model.U128
-import Model.I128
-/-! # C01 — placeholder, theorems are moved in below -/
-namespace C01
-open U128
+import Lemmas.U128Div
+import Lemmas.I128Basic
+/-! # C01 — 128-bit integer arithmetic, ordering and bit operations are ℤ mod 2^128
 
-/-- division or remainder by zero panics -/
+Property theorems only.  The executable models are `Model/U128.lean` (`num.Uint128`) and `Model/I128.lean` (`num.Int128`),
+the same definitions the driver `drv_c01` runs against the Go code on every check; helper lemmas are in
+`Lemmas/U128*.lean`, `Lemmas/I128*.lean`.  `toNat u = hi·2^64 + lo`, `toInt i` = two's complement, `bv u : BitVec 128`.
+Every theorem quantifies over all operands (no size bound), all shift counts, all bit indexes.
+
+Division: the dispatch (÷0 panic, ÷1, 64-bit fast path, power of two, `u < n`, `u = n`, selection of a kernel) is
+proved outright (`divMod_fast`, `divMod_panic_iff`, `div_eq_fst_divMod`, …).  The three kernels (`divmod128by64`,
+the estimate branch of `divmod128by128`, `divmod128bin`) enter `divMod_spec_partial` as the named contracts
+`U128.Divlu64Spec`, `U128.Div128Spec`, `U128.DivBinSpec`; on those paths the tie to the implementation is the
+correspondence run (every path and correction count is hit on every run, see the tag histogram). -/
+namespace C01
+open U128 (W Res ofW)
+
+/-! ## unsigned: add, subtract, multiply -/
+
+/-- `Add` returns the sum reduced mod 2^128 -/
+theorem add_spec (a b : U128) : (a.add b).toNat = (a.toNat + b.toNat) % 2^128 := U128.add_toNat a b
+/-- `Add64` (64-bit operand variant) -/
+theorem add64_spec (a : U128) (n : W) : (a.addW n).toNat = (a.toNat + n.toNat) % 2^128 := U128.addW_toNat a n
+/-- `Sub` returns the difference reduced mod 2^128 -/
+theorem sub_spec (a b : U128) : (a.sub b).toNat = (a.toNat + 2^128 - b.toNat) % 2^128 := U128.sub_toNat a b
+/-- `Sub64` -/
+theorem sub64_spec (a : U128) (n : W) : (a.subW n).toNat = (a.toNat + 2^128 - n.toNat) % 2^128 := U128.subW_toNat a n
+/-- `Inc` -/
+theorem inc_spec (a : U128) : a.inc.toNat = (a.toNat + 1) % 2^128 := U128.inc_toNat a
+/-- `Dec` -/
+theorem dec_spec (a : U128) : a.dec.toNat = (a.toNat + 2^128 - 1) % 2^128 := U128.dec_toNat a
+/-- `Mul` returns the product reduced mod 2^128 -/
+theorem mul_spec (a b : U128) : (a.mul b).toNat = (a.toNat * b.toNat) % 2^128 := U128.mul_toNat a b
+/-- `Mul64` (its own 32-bit schoolbook code in the source) -/
+theorem mul64_spec (a : U128) (n : W) : (a.mulW n).toNat = (a.toNat * n.toNat) % 2^128 := U128.mulW_toNat a n
+
+/-! ## unsigned: comparisons agree with the order of the values -/
+
+/-- `Cmp` -/
+theorem cmp_spec (a b : U128) :
+    a.cmp b = if a.toNat < b.toNat then -1 else if a.toNat = b.toNat then 0 else 1 := U128.cmp_eq a b
+/-- `Cmp64` -/
+theorem cmp64_spec (a : U128) (n : W) :
+    a.cmpW n = if a.toNat < n.toNat then -1 else if a.toNat = n.toNat then 0 else 1 := U128.cmpW_eq a n
+/-- `LessThan` -/
+theorem lessThan_spec (a b : U128) : a.lessThan b = decide (a.toNat < b.toNat) := U128.lessThan_eq a b
+/-- `LessThanOrEqual` -/
+theorem lessThanOrEqual_spec (a b : U128) : a.lessThanOrEqual b = decide (a.toNat ≤ b.toNat) :=
+  U128.lessThanOrEqual_eq a b
+/-- `GreaterThan` -/
+theorem greaterThan_spec (a b : U128) : a.greaterThan b = decide (a.toNat > b.toNat) := U128.greaterThan_eq a b
+/-- `GreaterThanOrEqual` -/
+theorem greaterThanOrEqual_spec (a b : U128) : a.greaterThanOrEqual b = decide (a.toNat ≥ b.toNat) :=
+  U128.greaterThanOrEqual_eq a b
+/-- `Equal` -/
+theorem equal_spec (a b : U128) : a.equal b = decide (a.toNat = b.toNat) := U128.equal_eq a b
+/-- `LessThan64` -/
+theorem lessThan64_spec (a : U128) (n : W) : a.lessThanW n = decide (a.toNat < n.toNat) := U128.lessThanW_eq a n
+/-- `LessThanOrEqual64` -/
+theorem lessThanOrEqual64_spec (a : U128) (n : W) : a.lessThanOrEqualW n = decide (a.toNat ≤ n.toNat) :=
+  U128.lessThanOrEqualW_eq a n
+/-- `GreaterThan64` -/
+theorem greaterThan64_spec (a : U128) (n : W) : a.greaterThanW n = decide (a.toNat > n.toNat) :=
+  U128.greaterThanW_eq a n
+/-- `GreaterThanOrEqual64` -/
+theorem greaterThanOrEqual64_spec (a : U128) (n : W) : a.greaterThanOrEqualW n = decide (a.toNat ≥ n.toNat) :=
+  U128.greaterThanOrEqualW_eq a n
+/-- `Equal64` -/
+theorem equal64_spec (a : U128) (n : W) : a.equalW n = decide (a.toNat = n.toNat) := U128.equalW_eq a n
+/-- `IsZero` -/
+theorem isZero_spec (a : U128) : a.isZero = decide (a.toNat = 0) := U128.isZero_eq a
+/-- `IsUint64` -/
+theorem isUint64_spec (a : U128) : a.isUint64 = decide (a.toNat < 2^64) := U128.isUint64_eq a
+
+/-! ## bitwise operations agree with the 128-bit binary representation -/
+
+/-- `bv` is the binary representation of the value -/
+theorem bv_value (a : U128) : a.bv.toNat = a.toNat := U128.bv_toNat a
+/-- bit `i` of the value is bit `i` of `bv` -/
+theorem bv_testBit (a : U128) (i : Nat) : a.toNat.testBit i = a.bv.getLsbD i := U128.testBit_eq a i
+/-- `And` -/
+theorem and_spec (a b : U128) : (a.and b).bv = a.bv &&& b.bv := U128.and_bv a b
+/-- `Or` -/
+theorem or_spec (a b : U128) : (a.or b).bv = a.bv ||| b.bv := U128.or_bv a b
+/-- `Xor` -/
+theorem xor_spec (a b : U128) : (a.xor b).bv = a.bv ^^^ b.bv := U128.xor_bv a b
+/-- `Not` -/
+theorem not_spec (a : U128) : a.not.bv = ~~~a.bv := U128.not_bv a
+/-- `AndNot` -/
+theorem andNot_spec (a b : U128) : (a.andNot b).bv = a.bv &&& ~~~b.bv := U128.andNot_bv a b
+/-- `And64`: and with the zero-extended word -/
+theorem and64_spec (a : U128) (n : W) : (a.andW n).bv = a.bv &&& (ofW n).bv := by rw [U128.andW_eq, U128.and_bv]
+/-- `Or64` -/
+theorem or64_spec (a : U128) (n : W) : (a.orW n).bv = a.bv ||| (ofW n).bv := by rw [U128.orW_eq, U128.or_bv]
+/-- `Xor64` -/
+theorem xor64_spec (a : U128) (n : W) : (a.xorW n).bv = a.bv ^^^ (ofW n).bv := by rw [U128.xorW_eq, U128.xor_bv]
+/-- `AndNot64` (takes a `Uint128` in the source and uses its low word, Appendix B) -/
+theorem andNot64_spec (a b : U128) : (a.andNot64 b).bv = a.bv &&& ~~~(ofW b.lo).bv := by
+  rw [U128.andNot64_eq, U128.andNot_bv]
+
+/-! ## shifts, for every count (also ≥ 128) -/
+
+/-- `LeftShift` on the representation -/
+theorem shl_bv (a : U128) (n : Nat) : (a.leftShift n).bv = a.bv <<< n := U128.leftShift_bv a n
+/-- `RightShift` on the representation -/
+theorem shr_bv (a : U128) (n : Nat) : (a.rightShift n).bv = a.bv >>> n := U128.rightShift_bv a n
+/-- `LeftShift` on the value -/
+theorem shl_spec (a : U128) (n : Nat) : (a.leftShift n).toNat = (a.toNat * 2^n) % 2^128 := U128.leftShift_toNat a n
+/-- `RightShift` on the value -/
+theorem shr_spec (a : U128) (n : Nat) : (a.rightShift n).toNat = a.toNat / 2^n := U128.rightShift_toNat a n
+
+/-! ## bit queries -/
+
+/-- `Bit(i)` for every `int` index (0 outside 0..127) -/
+theorem bit_spec (a : U128) (i : Int) :
+    a.bit i = if 0 ≤ i ∧ i < 128 ∧ a.toNat.testBit i.toNat then 1 else 0 := U128.bit_eq a i
+/-- `SetBit(i, b)`: bit `i` becomes `b ≠ 0`, all other bits unchanged, out-of-range indexes change nothing -/
+theorem setBit_spec (a : U128) (i : Int) (b : Nat) (j : Nat) :
+    (a.setBit i b).bv.getLsbD j = if 0 ≤ i ∧ i < 128 ∧ j = i.toNat then decide (b ≠ 0) else a.bv.getLsbD j :=
+  U128.setBit_getLsbD a i b j
+/-- `BitLen` is the bit length: the value is below `2^BitLen`, and at least `2^(BitLen-1)` when non-zero -/
+theorem bitLen_spec (a : U128) :
+    a.bitLen ≤ 128 ∧ a.toNat < 2 ^ a.bitLen ∧ (a.toNat ≠ 0 → 2 ^ (a.bitLen - 1) ≤ a.toNat) :=
+  ⟨U128.bitLen_le a, U128.bitLen_upper a, U128.bitLen_lower a⟩
+/-- `LeadingZeros` = 128 − bit length -/
+theorem leadingZeros_spec (a : U128) : a.leadingZeros = 128 - a.bitLen := U128.leadingZeros_eq a
+/-- `TrailingZeros` of zero is 128 … -/
+theorem trailingZeros_zero (a : U128) (h : a.toNat = 0) : a.trailingZeros = 128 := U128.trailingZeros_zero a h
+/-- … and otherwise the index of the lowest set bit -/
+theorem trailingZeros_spec (a : U128) (h : a.toNat ≠ 0) :
+    a.trailingZeros < 128 ∧ a.toNat.testBit a.trailingZeros = true ∧
+      ∀ j, j < a.trailingZeros → a.toNat.testBit j = false := U128.trailingZeros_spec a h
+/-- `OnesCount` is the number of set bits (this is the statement the fixed defect violated) -/
+theorem onesCount_spec (a : U128) : a.onesCount = (List.range 128).countP (fun i => a.toNat.testBit i) :=
+  U128.onesCount_eq a
+
+/-! ## unsigned division -/
+
+/-- division or remainder by zero panics (all six entry points) -/
 theorem div_zero_panics (a n : U128) (h : n.toNat = 0) :
-    a.div n = .panic ∧ a.mod n = .panic ∧ a.divMod n = .panic := by
-  have h1 := n.hi.isLt; have h2 := n.lo.isLt
-  unfold toNat at h
-  have hh : n.hi = 0#64 := BitVec.eq_of_toNat_eq (by simp; omega)
-  have hl : n.lo = 0#64 := BitVec.eq_of_toNat_eq (by simp; omega)
-  simp [div, mod, divMod, hh, hl]
+    a.div n = .panic ∧ a.mod n = .panic ∧ a.divMod n = .panic ∧
+    a.divW 0#64 = .panic ∧ a.modW 0#64 = .panic ∧ a.divModW 0#64 = .panic := by
+  have h3 := (U128.divMod_panic_iff a n).mpr h
+  refine ⟨?_, ?_, h3, ?_, ?_, ?_⟩
+  · rw [U128.div_eq_divMod, h3]; rfl
+  · rw [U128.mod_eq_divMod, h3]; rfl
+  · simp [U128.divW]
+  · simp [U128.modW]
+  · simp [U128.divModW]
+
+/-- … and nothing else does: `DivMod` panics only for a zero divisor.  (Every other model function is total and has
+    no `panic` in its result type, so "no other operation ever panics" holds of the model by construction.) -/
+theorem no_other_panic (a n : U128) (h : n.toNat ≠ 0) :
+    a.divMod n ≠ .panic ∧ a.div n ≠ .panic ∧ a.mod n ≠ .panic := by
+  have h3 : a.divMod n ≠ .panic := fun e => h ((U128.divMod_panic_iff a n).mp e)
+  refine ⟨h3, ?_, ?_⟩
+  · rw [U128.div_eq_divMod]; cases hd : a.divMod n with
+    | ok v => simp [U128.Res.map]
+    | panic => exact absurd hd h3
+  · rw [U128.mod_eq_divMod]; cases hd : a.divMod n with
+    | ok v => simp [U128.Res.map]
+    | panic => exact absurd hd h3
+
+/-- `Div` (a separate copy of the dispatch in the source) is the quotient of `DivMod` -/
+theorem div_eq_fst_divMod (a n : U128) : a.div n = (a.divMod n).map Prod.fst := U128.div_eq_divMod a n
+/-- `Mod` (a third copy) is the remainder of `DivMod` -/
+theorem mod_eq_snd_divMod (a n : U128) : a.mod n = (a.divMod n).map Prod.snd := U128.mod_eq_divMod a n
+/-- `DivMod64`, `Div64`, `Mod64` (three more copies) are the 128-bit routines on the zero-extended divisor -/
+theorem div64_eq (a : U128) (n : W) :
+    a.divModW n = a.divMod (ofW n) ∧ a.divW n = a.div (ofW n) ∧ a.modW n = a.mod (ofW n) :=
+  ⟨U128.divModW_eq a n, U128.divW_eq a n, U128.modW_eq a n⟩
+
+/-- the full statement: `DivMod` returns floor quotient and remainder for every non-zero divisor -/
+def divMod_spec_Statement : Prop := ∀ (a n : U128), n.toNat ≠ 0 →
+  ∃ q r, a.divMod n = .ok (q, r) ∧ q.toNat = a.toNat / n.toNat ∧ r.toNat = a.toNat % n.toNat
+
+/-- `divMod_spec` on every path that does not enter a kernel — divisor 1, both operands below 2^64, divisor a power of
+    two, dividend ≤ divisor — with no hypothesis -/
+theorem divMod_spec_fast (a n : U128) (h : n.toNat ≠ 0)
+    (hp : n.toNat = 1 ∨ (a.toNat < 2^64 ∧ n.toNat < 2^64) ∨ n.leadingZeros + n.trailingZeros = 127 ∨
+      a.toNat ≤ n.toNat) :
+    ∃ q r, a.divMod n = .ok (q, r) ∧ q.toNat = a.toNat / n.toNat ∧ r.toNat = a.toNat % n.toNat :=
+  U128.divMod_fast a n h hp
+
+/-- `divMod_spec` in general, with the contracts of the three kernels as explicit named hypotheses (the dispatch, the
+    reduction of the word-divisor case to `divmod128by64` with the high/low split, and all fast paths are proved) -/
+theorem divMod_spec_partial (h64 : U128.Divlu64Spec) (h128 : U128.Div128Spec) (hbin : U128.DivBinSpec) :
+    divMod_spec_Statement :=
+  fun a n h => U128.divMod_correct h64 h128 hbin a n h
+
+/-- quotient·divisor + remainder reproduces the dividend, and the remainder is smaller than the divisor (from the
+    kernel contracts) -/
+theorem div_mul_add_mod_partial (h64 : U128.Divlu64Spec) (h128 : U128.Div128Spec) (hbin : U128.DivBinSpec)
+    (a n : U128) (h : n.toNat ≠ 0) :
+    ∃ q r, a.divMod n = .ok (q, r) ∧ q.toNat * n.toNat + r.toNat = a.toNat ∧ r.toNat < n.toNat := by
+  obtain ⟨q, r, e, hq, hr⟩ := U128.divMod_correct h64 h128 hbin a n h
+  refine ⟨q, r, e, ?_, ?_⟩
+  · rw [hq, hr, Nat.mul_comm]; exact Nat.div_add_mod _ _
+  · rw [hr]; exact Nat.mod_lt _ (by omega)
+
+/-! ## signed layer (two's complement) -/
+
+/-- `Int128.Add` -/
+theorem iadd_spec (a b : I128) : (a.add b).toInt = I128.wrap128 (a.toInt + b.toInt) := I128.add_toInt a b
+/-- `Int128.Sub` -/
+theorem isub_spec (a b : I128) : (a.sub b).toInt = I128.wrap128 (a.toInt - b.toInt) := I128.sub_toInt a b
+/-- `Int128.Mul` -/
+theorem imul_spec (a b : I128) : (a.mul b).toInt = I128.wrap128 (a.toInt * b.toInt) := I128.mul_toInt a b
+/-- `Int128.Inc` -/
+theorem iinc_spec (a : I128) : a.inc.toInt = I128.wrap128 (a.toInt + 1) := I128.inc_toInt a
+/-- `Int128.Dec` -/
+theorem idec_spec (a : I128) : a.dec.toInt = I128.wrap128 (a.toInt - 1) := I128.dec_toInt a
+/-- `Int128.Add64` (sign-extended `int64` operand) -/
+theorem iadd64_spec (a : I128) (n : W) : (a.addW n).toInt = I128.wrap128 (a.toInt + I128.int64Val n) :=
+  I128.addW_toInt a n
+/-- `Int128.Sub64` -/
+theorem isub64_spec (a : I128) (n : W) : (a.subW n).toInt = I128.wrap128 (a.toInt - I128.int64Val n) :=
+  I128.subW_toInt a n
+/-- `Int128.Mul64` -/
+theorem imul64_spec (a : I128) (n : W) : (a.mulW n).toInt = I128.wrap128 (a.toInt * I128.int64Val n) :=
+  I128.mulW_toInt a n
+/-- `Int128From64` / `Int128FromUint64` -/
+theorem ifrom64_spec (n : W) : (I128.from64 n).toInt = I128.int64Val n ∧ (I128.fromUint64 n).toInt = n.toNat :=
+  ⟨I128.from64_toInt n, I128.fromUint64_toInt n⟩
+/-- `Neg`: two's-complement negation; 0 and `MinInt128` are its fixed points -/
+theorem neg_spec (a : I128) : a.neg.toInt = I128.wrap128 (- a.toInt) := I128.neg_toInt a
+/-- `Abs` (only `MinInt128` wraps, to itself) -/
+theorem abs_spec (a : I128) : a.abs.toInt = I128.wrap128 (if a.toInt < 0 then - a.toInt else a.toInt) :=
+  I128.abs_toInt a
+/-- `AbsUint128` is exact for every input (`MinInt128` ↦ 2^127) -/
+theorem absUint128_spec (a : I128) : (a.absUint128.toNat : Int) = if a.toInt < 0 then - a.toInt else a.toInt :=
+  I128.absUint128_toNat a
+/-- `Sign` -/
+theorem sign_spec (a : I128) : a.sign = if a.toInt < 0 then -1 else if a.toInt = 0 then 0 else 1 := I128.sign_eq a
+/-- the wrap is the identity on representable values (so the signed results are exact whenever they fit) -/
+theorem wrap128_id (z : Int) (h : -2^127 ≤ z ∧ z < 2^127) : I128.wrap128 z = z := by
+  unfold I128.wrap128; omega
+/-- every `Int128` value is in range, and `toInt` is injective -/
+theorem toInt_range (a : I128) : -2^127 ≤ a.toInt ∧ a.toInt < 2^127 := I128.toInt_range a
+
+/-- `Int128.Cmp` agrees with the order of ℤ -/
+theorem icmp_spec (a b : I128) :
+    a.cmp b = if a.toInt < b.toInt then -1 else if a.toInt = b.toInt then 0 else 1 := I128.cmpHL_eq a b.hi b.lo
+/-- `Int128.Cmp64` (sign extension of the `int64`) -/
+theorem icmp64_spec (a : I128) (n : W) :
+    a.cmpW n = if a.toInt < I128.int64Val n then -1 else if a.toInt = I128.int64Val n then 0 else 1 := by
+  rw [← I128.ext64_toInt]; exact I128.cmpHL_eq a _ _
+/-- `Int128.GreaterThan` -/
+theorem igt_spec (a b : I128) : a.greaterThan b = decide (a.toInt > b.toInt) := I128.gtHL_eq a b.hi b.lo
+/-- `Int128.GreaterThanOrEqual` -/
+theorem ige_spec (a b : I128) : a.greaterThanOrEqual b = decide (a.toInt ≥ b.toInt) := I128.geHL_eq a b.hi b.lo
+/-- `Int128.LessThan` -/
+theorem ilt_spec (a b : I128) : a.lessThan b = decide (a.toInt < b.toInt) := I128.ltHL_eq a b.hi b.lo
+/-- `Int128.LessThanOrEqual` -/
+theorem ile_spec (a b : I128) : a.lessThanOrEqual b = decide (a.toInt ≤ b.toInt) := I128.leHL_eq a b.hi b.lo
+/-- `Int128.Equal` -/
+theorem ieq_spec (a b : I128) : a.equal b = decide (a.toInt = b.toInt) := I128.equal_eq a b
+/-- `Int128.GreaterThan64` -/
+theorem igt64_spec (a : I128) (n : W) : a.greaterThanW n = decide (a.toInt > I128.int64Val n) := by
+  rw [← I128.ext64_toInt]; exact I128.gtHL_eq a _ _
+/-- `Int128.GreaterThanOrEqual64` -/
+theorem ige64_spec (a : I128) (n : W) : a.greaterThanOrEqualW n = decide (a.toInt ≥ I128.int64Val n) := by
+  rw [← I128.ext64_toInt]; exact I128.geHL_eq a _ _
+/-- `Int128.LessThan64` -/
+theorem ilt64_spec (a : I128) (n : W) : a.lessThanW n = decide (a.toInt < I128.int64Val n) := by
+  rw [← I128.ext64_toInt]; exact I128.ltHL_eq a _ _
+/-- `Int128.LessThanOrEqual64` -/
+theorem ile64_spec (a : I128) (n : W) : a.lessThanOrEqualW n = decide (a.toInt ≤ I128.int64Val n) := by
+  rw [← I128.ext64_toInt]; exact I128.leHL_eq a _ _
+/-- `Int128.Equal64` -/
+theorem ieq64_spec (a : I128) (n : W) : a.equalW n = decide (a.toInt = I128.int64Val n) := by
+  rw [← I128.ext64_toInt]; exact I128.equal_eq a ⟨I128.ext64 n, n⟩
+
+/-- signed division by zero panics (all six entry points) -/
+theorem idiv_zero_panics (a : I128) :
+    a.div I128.zero = .panic ∧ a.divMod I128.zero = .panic ∧ a.mod I128.zero = .panic ∧
+    a.divW 0#64 = .panic ∧ a.divModW 0#64 = .panic ∧ a.modW 0#64 = .panic := by
+  have hz : (I128.zero).lessThan I128.zero = false := by decide
+  have hn : I128.neg64 0#64 = false := by decide
+  have hu : I128.zero.toU = ⟨0#64, 0#64⟩ := rfl
+  have hd : ∀ u : U128, u.div ⟨0#64, 0#64⟩ = .panic := fun u => by simp [U128.div]
+  have hdm : ∀ u : U128, u.divMod ⟨0#64, 0#64⟩ = .panic := fun u => by simp [U128.divMod]
+  have hdw : ∀ u : U128, u.divW 0#64 = .panic := fun u => by simp [U128.divW]
+  have e0 : I128.ext64 0#64 = 0#64 := by decide
+  have h2 : a.divMod I128.zero = .panic := by
+    simp only [I128.divMod, hz, Bool.false_eq_true, if_false, hu, hdm]
+  have h5 : a.divModW 0#64 = .panic := by
+    unfold I128.divModW; rw [e0]; exact h2
+  refine ⟨?_, h2, ?_, ?_, h5, ?_⟩
+  · simp only [I128.div, hz, Bool.false_eq_true, if_false, hu, hd]
+  · simp only [I128.mod, h2]
+  · simp only [I128.divW, hn, Bool.false_eq_true, if_false, hdw]
+  · simp only [I128.modW, h5]
+
+/-! non-vacuity: the hypotheses of `divMod_spec_fast` are met by concrete operands (2^64 / 2^64: the `u = n` path),
+    and a concrete evaluation of the model: 7 / 2 = 3 rem 1 -/
+example : (U128.mk 1#64 0#64).toNat ≠ 0 ∧ (U128.mk 1#64 0#64).toNat ≤ (U128.mk 1#64 0#64).toNat := by
+  simp [U128.toNat]
+example : (U128.mk 0#64 7#64).divMod (U128.mk 0#64 2#64) = .ok (⟨0#64, 3#64⟩, ⟨0#64, 1#64⟩) := by
+  simp [U128.divMod]
 
 end C01
